@@ -13,7 +13,7 @@ import ast
 import os
 
 from ..core.loader import AnalysisError, Project
-from ..core.own import Event
+from ..core.own import Event, Origin
 from .common import own_analysis, public_entry_points, local_names, stmts_in_order
 
 RNG_PREFIXES = ("numpy.random.", "random.", "os.urandom", "secrets.", "time.time", "time.perf_counter",
@@ -102,6 +102,48 @@ def check_pu_args(project: Project, oa, rep, entry_points, rule="PU-ARGS"):
     return n_flag
 
 
+def _own_state(project, oa, fi, origin):
+    """why the object at `self.<attr>` can only be one the instance made itself: every store to that attribute, in every
+    method of the class hierarchy, puts a freshly built object there (and nothing outside the class stores to it)"""
+    if len(origin.path) != 1 or not origin.path[0].startswith("."):
+        return None
+    attr = origin.path[0][1:]
+    ci = fi.cls
+    family = {ci.qualname}
+    for c in project.classes.values():
+        names = {k.qualname for k in c.mro(project)}
+        if ci.qualname in names or (names & {k.qualname for k in ci.mro(project)} - {"builtins.object"}):
+            family.add(c.qualname)
+    stores = 0
+    for q, g in project.functions.items():
+        s = oa.summary(q) if g.parent is None else None
+        if s is None:
+            continue
+        inside = g.cls is not None and g.cls.qualname in family
+        if inside and g.params and g.kind != "staticmethod":
+            av = s.captures.get((Origin("arg:" + g.params[0]), attr))
+            if av is not None:
+                stores += 1
+                seen_ = set()
+
+                def fresh_(a):
+                    if a is None:
+                        return True
+                    if id(a) in seen_:
+                        return True
+                    seen_.add(id(a))
+                    return all(o.root.startswith("obj:") for o in a.is_) and fresh_(a.elem) and all(fresh_(x) for x in a.items)
+                if not fresh_(av):
+                    return None
+        if not inside:
+            for ev in s.events:
+                if ev.kind == "attrstore" and ev.attr == attr and ev.func == q:
+                    return None   # somebody else puts objects into an attribute of that name
+    if not stores:
+        return None
+    return f"every one of the {stores} stores to `.{attr}` in the class puts a freshly built object there — the instance's own state"
+
+
 def check_pu_capt(project: Project, oa, rep, rule="PU-CAPT"):
     n_flag = 0
     n = 0
@@ -127,6 +169,14 @@ def check_pu_capt(project: Project, oa, rep, rule="PU-CAPT"):
         elif evs:
             for ev in evs:
                 owner = project.functions.get(ev.func)
+                own_why = _own_state(project, oa, fi, ev.origin)
+                if own_why:
+                    # the object written is one the instance built for itself (a counter, a running extent, a scratch
+                    # list): no caller data is reached.  Whether such state may influence a result is decided by the
+                    # transformer rules (TF-HIST / TF-RO) and ST-CACHE, not here.
+                    n += 1
+                    rep.discharged(rule, owner or fi, ev.node, f"in-place update of {ev.origin}: {own_why}", nontrivial=True)
+                    continue
                 rep.refuted(rule, owner or fi, ev.node,
                             f"{fi.qualname} mutates in place an object reachable from self ({ev.origin}); "
                             f"constructors keep references to the caller's arrays/lists, so this alters caller data "
@@ -219,9 +269,24 @@ def check_pu_state(project: Project, oa, rep, rule="PU-STATE"):
 REPORT_CALLS = ("debug", "info", "warning", "error", "log", "print", "warn", "verboseprint", "exception", "critical")
 
 
-def _clock_only_reported(fi, call) -> bool:
-    """every value derived from this clock reading (through plain assignments and arithmetic) ends in the arguments of a
-    logging / print / warnings call — or is never used"""
+def _callee_of(project, fi, call):
+    """the repository function a call reaches (a plain name, a module attribute or a method of `self`), or None"""
+    fn = call.func
+    if isinstance(fn, ast.Attribute) and isinstance(fn.value, ast.Name) and fn.value.id in ("self", "cls") and fi.cls is not None:
+        c = project.classes.get(fi.cls) if isinstance(fi.cls, str) else fi.cls
+        m = c.lookup(fn.attr, project) if c is not None else None
+        return (m, 1) if m is not None else (None, 0)
+    tgt = project.resolve(fi.module, fn)
+    if tgt is not None:
+        g = project.functions.get(project.canonical(tgt))
+        if g is not None:
+            return g, (1 if g.kind == "method" else 0)
+    return None, 0
+
+
+def _clock_only_reported(fi, call, project=None, depth=0, starts=None) -> bool:
+    """every value derived from this clock reading (through plain assignments, arithmetic, a conditional expression and
+    parameters of repository helpers) ends in the arguments of a logging / print / warnings call — or is never used"""
     f = fi.node
     parents = {}
     for n in ast.walk(f):
@@ -238,7 +303,7 @@ def _clock_only_reported(fi, call) -> bool:
                     return True
             p = parents.get(id(p))
         return False
-    tainted, todo = set(), [call]
+    tainted, todo = set(), list(starts) if starts is not None else [call]
     seen = set()
     while todo:
         n = todo.pop()
@@ -248,15 +313,44 @@ def _clock_only_reported(fi, call) -> bool:
         if in_report(n):
             continue
         p = parents.get(id(n))
-        while p is not None and isinstance(p, (ast.BinOp, ast.UnaryOp, ast.Call)) and not isinstance(p, ast.stmt):
+        handed = False
+        while p is not None and isinstance(p, (ast.BinOp, ast.UnaryOp, ast.Call, ast.IfExp, ast.keyword, ast.Starred, ast.Tuple)) \
+                and not isinstance(p, ast.stmt):
+            if isinstance(p, ast.IfExp) and n is p.test:
+                return False   # decides which value is taken
             if isinstance(p, ast.Call):
                 fn = p.func
                 nm = fn.attr if isinstance(fn, ast.Attribute) else getattr(fn, "id", "")
                 if nm in REPORT_CALLS:
                     break
                 if nm not in ("round", "float", "int", "max", "min", "abs", "format"):
-                    return False   # handed to something else
+                    # a repository helper: follow the parameter the value is bound to
+                    g, skip = _callee_of(project, fi, p) if project is not None and depth < 3 else (None, 0)
+                    if g is None or any(isinstance(a, ast.Starred) for a in p.args) or any(k.arg is None for k in p.keywords):
+                        return False   # handed to something else
+                    top = n
+                    pname = None
+                    params = g.params
+                    for k_, a in enumerate(p.args):
+                        if a is top and k_ + skip < len(params):
+                            pname = params[k_ + skip]
+                    for kw_ in p.keywords:
+                        if kw_ is top or kw_.value is top:
+                            pname = kw_.arg if kw_.arg in params else None
+                    if pname is None:
+                        return False
+                    uses = [x for x in ast.walk(g.node) if isinstance(x, ast.Name) and x.id == pname and isinstance(x.ctx, ast.Load)]
+                    if not _clock_only_reported(g, None, project, depth + 1, starts=uses):
+                        return False
+                    handed = True
+                    break
             n, p = p, parents.get(id(p))
+        if handed:
+            # the helper's own result must not come back either: the call has to stand alone as a statement
+            q_ = parents.get(id(p))
+            if isinstance(q_, ast.Expr):
+                continue
+            return False
         if isinstance(p, ast.Call):
             continue   # ended in a report call
         if isinstance(p, ast.Assign) and len(p.targets) == 1 and isinstance(p.targets[0], ast.Name):
@@ -286,7 +380,7 @@ def check_pu_rng(project: Project, oa, rep, allowed=RNG_ALLOWED_FUNCS, rule="PU-
             owner = project.enclosing_function(fi.module, node)
             if owner is None or owner.qualname.split(".<locals>")[0] != q:
                 continue
-            if tgt.startswith("time.") and _clock_only_reported(fi, node):
+            if tgt.startswith("time.") and _clock_only_reported(fi, node, project):
                 # a clock read whose value only ever reaches a log / print / warning call: timing diagnostics, no result
                 # depends on it
                 rep.discharged(rule, fi, node, f"{tgt}: the reading is only reported (logging), it reaches no result", nontrivial=False)
@@ -448,6 +542,13 @@ def check_pu_dtype(project: Project, rep, rule="PU-DTYPE"):
     return n_flag, sites
 
 
+def check_pu_intarith(project: Project, rep, rule="PU-INTARITH"):
+    """arithmetic between quantities that still have the dtype of the caller's arrays (rules/intarith_rule.py)"""
+    from . import intarith_rule
+    n_fn, n_arr = intarith_rule.run_on(project, rep, rule)
+    return len([x for x in rep.refutations if x["rule"] == rule]), n_fn
+
+
 def _positive_examples(rep):
     """Zero-expected rules must flag their tiny positive example on every run."""
     from ..core.report import Report
@@ -465,8 +566,16 @@ def _positive_examples(rep):
         "PU-RNG": check_pu_rng(pp, oa, scratch, allowed=set())[0],
         "PU-PLT": check_pu_plt(pp, oa, scratch, allowed_modules=set())[0],
         "PU-DTYPE": check_pu_dtype(pp, scratch)[0],
+        "PU-INTARITH": check_pu_intarith(pp, scratch)[0],
     }
-    want = {"PU-ARGS": 5, "PU-CAPT": 2, "PU-STATE": 5, "PU-RNG": 1, "PU-PLT": 1, "PU-DTYPE": 2}
+    want = {"PU-ARGS": 5, "PU-CAPT": 2, "PU-STATE": 5, "PU-RNG": 1, "PU-PLT": 1, "PU-DTYPE": 2, "PU-INTARITH": 5}
+    ia = [x for x in scratch.refutations if x["rule"] == "PU-INTARITH"]
+    for must in ("cross_difference", "squared_norms", "midpoints", "_pairwise"):
+        if not any(must in x["function"] for x in ia):
+            raise AnalysisError(f"positive example: PU-INTARITH did not flag {must}")
+    for never in ("converted_first", "own_difference", "scalar_settings"):
+        if any(never in x["function"] for x in ia):
+            raise AnalysisError(f"positive example: PU-INTARITH flagged the clean twin {never}")
     for r, n in want.items():
         if got[r] < n:
             raise AnalysisError(f"positive example: rule {r} flagged {got[r]} constructs, expected >= {n} "
@@ -493,7 +602,9 @@ def run(project: Project, rep, tier: str):
         "reachable from self. PU-STATE: no store to module/class state and no mutation of module-level objects or "
         "mutable defaults. PU-RNG/PU-PLT: who-may-call for random generators (only the mGH upper-bound heuristic, "
         "legacy global generator so np.random.seed reproduces it) and pyplot state. PU-DTYPE: stores into copies that "
-        "keep the caller's dtype are closed over the integers. Declined: bit-identical floating results.")
+        "keep the caller's dtype are closed over the integers. PU-INTARITH: no difference of two caller arrays, product, power or sum "
+        "is formed while both operands still have the caller's (possibly unsigned or narrow) integer dtype — a must analysis "
+        "over reaching definitions. Declined: bit-identical floating results.")
     rep.assume("external callables (numpy/scipy/sklearn/matplotlib/stdlib) behave as tabled in pst/core/own.py "
                "(copy vs view vs mutating); user-supplied weight/kernel callables are pure by documented contract")
     oa = own_analysis(project)
@@ -511,6 +622,9 @@ def run(project: Project, rep, tier: str):
     check_pu_plt(project, oa, rep)
     _, dsites = check_pu_dtype(project, rep)
     rep.floor("PU-DTYPE", 3)
+    _, ia_fns = check_pu_intarith(project, rep)
+    rep.floor("PU-INTARITH", 8)
+    rep.extra["functions_with_caller_typed_arrays"] = ia_fns
     # PU-NONE: a value taken from a call that returns nothing on some path (the first call on a lazily computed object fails,
     # a repeated one succeeds: the result depends on the object's history)
     from . import retval_rule
